@@ -215,4 +215,28 @@ theorem derivative_twice_expr (x : α) (e : Expr α) (ρ : α → Bool) :
   intro σ
   rw [single_flip_expr, single_flip_expr, upd_same, upd_same, upd_same, upd_same]
 
+section
+variable [Ord α] [Std.TransOrd α] [Std.LawfulEqOrd α]
+/-! ### the same laws for tables -/
+
+theorem derivative_twice_table (x : α) (t : Table α) (h : t.WF) (ρ : α → Bool) :
+    ((t.derivative [x]).derivative [x]).den ρ = false := by
+  have hw : (t.derivative [x]).WF := (table_derivative [x] (by simp) t h ρ).1
+  apply nonessential_false_table x _ hw
+  intro σ
+  rw [single_flip_table x t h, single_flip_table x t h, upd_same, upd_same, upd_same, upd_same]
+
+theorem derivative_not_table (x : α) (t : Table α) (h : t.WF) (ρ : α → Bool) :
+    ((Table.not t).derivative [x]).den ρ = (t.derivative [x]).den ρ := by
+  obtain ⟨hw, _, hd⟩ := Table.not_den t h
+  rw [single_flip_table x _ hw, single_flip_table x t h, hd, hd]
+  cases t.den (upd ρ x false) <;> cases t.den (upd ρ x true) <;> rfl
+
+/-- tables and expressions that denote one function have the same single-variable derivative -/
+theorem derivative_table_expr_agree (x : α) (t : Table α) (h : t.WF) (e : Expr α)
+    (hd : ∀ ρ, t.den ρ = e.den ρ) (ρ : α → Bool) :
+    (t.derivative [x]).den ρ = (e.derivative [x]).den ρ := by
+  rw [single_flip_table x t h, single_flip_expr, hd, hd]
+end
+
 end BoolFn.C07
